@@ -247,7 +247,7 @@ pub fn build(r: &RawData) -> (Vec<Ln>, Shape) {
     (prog, shape)
 }
 
-fn test(r: &RawData, ev: &mut Ev, opts: &ModelOpts) -> Result<(), Violation> {
+pub fn test(r: &RawData, ev: &mut Ev, opts: &ModelOpts) -> Result<(), Violation> {
     ev.eval();
     let (prog, shape) = build(r);
     let text = render(&prog, r.style).text;
